@@ -50,6 +50,7 @@ import (
 type c10SlowLive struct {
 	mu      sync.Mutex
 	open    bool          // scans return at once
+	calls   int32         // scans asked for, whatever the mode
 	end     chan struct{} // closed when the running scans are to end
 	entered chan string   // call log: one entry per scan started while !open
 	inScan  int32
@@ -60,6 +61,7 @@ func c10NewSlowLive() *c10SlowLive {
 }
 
 func (s *c10SlowLive) PhantomIsLive(addr string, port uint16) (bool, error) {
+	atomic.AddInt32(&s.calls, 1)
 	s.mu.Lock()
 	open, end := s.open, s.end
 	s.mu.Unlock()
@@ -136,7 +138,37 @@ func TestVerifC10ShutdownBusy(t *testing.T) {
 	ncase := 0
 	// a registration that needs a liveness scan: IPv4 phantom, not pre-scanned, a wrapping transport (no goroutine
 	// of its own), plain v4 registrant, no registrar override
-	newCase := func() *c10Case {
+	// (a candidate is tried on a manager of its own first: it must reach the scan and be announced; its secret is
+	// fresh, so the launch's manager has never seen it)
+	probe := c10NewManager(t)
+	probeLive := c10NewSlowLive()
+	probe.LivenessTester = probeLive
+	var newCase func() *c10Case
+	var take func(l *c10BusyLaunch)
+	goodMsg := func(l *c10BusyLaunch) []byte {
+		// nothing of the launch is in flight when this is called (its busy workers are inside their scans, the
+		// synchronous deliveries have returned): what has arrived so far is the launch's, what arrives next the probe's
+		take(l)
+		defer fr.Reset()
+		for tries := 0; tries < 200; tries++ {
+			msg, err := newCase().wrapper()
+			if err != nil {
+				t.Fatalf("infrastructure: marshal: %v", err)
+			}
+			calls, before := atomic.LoadInt32(&probeLive.calls), fr.Len()
+			regs, err := probe.parseRegMessage(msg)
+			if err != nil || len(regs) != 1 || regs[0] == nil {
+				continue
+			}
+			probe.ingestRegistration(regs[0])
+			if atomic.LoadInt32(&probeLive.calls) == calls+1 && fr.Len() == before+1 {
+				return msg
+			}
+		}
+		t.Fatalf("infrastructure: no registration that is scanned and announced in 200 attempts")
+		return nil
+	}
+	newCase = func() *c10Case {
 		for {
 			ncase++
 			var cs c10Case
@@ -152,7 +184,7 @@ func TestVerifC10ShutdownBusy(t *testing.T) {
 		}
 	}
 	// take: everything that arrived at the stand-in Redis since the last take
-	take := func(l *c10BusyLaunch) {
+	take = func(l *c10BusyLaunch) {
 		l.pubs = append(l.pubs, fr.Pubs()...)
 		fr.Reset()
 	}
@@ -184,10 +216,7 @@ func TestVerifC10ShutdownBusy(t *testing.T) {
 		// registrations announced earlier in this launch (the Clear has something to clear)
 		for i := 0; i < l.pre; i++ {
 			for tries := 0; tries < 20; tries++ {
-				msg, err := newCase().wrapper()
-				if err != nil {
-					t.Fatalf("infrastructure: marshal: %v", err)
-				}
+				msg := goodMsg(l)
 				before := fr.Len()
 				regs, _ := l.rm.parseRegMessage(msg)
 				for _, reg := range regs {
@@ -218,10 +247,7 @@ func TestVerifC10ShutdownBusy(t *testing.T) {
 		// one registration per worker-to-be-busy; each must have entered its scan before the next is offered.  A
 		// message the distributor dropped (no worker was waiting yet, buffer full) is offered again.
 		for len(l.scans) < l.busy {
-			msg, err := newCase().wrapper()
-			if err != nil {
-				t.Fatalf("infrastructure: marshal: %v", err)
-			}
+			msg := goodMsg(l)
 			dropped := atomic.LoadInt64(&l.rm.totalDroppedMessages)
 			regChan <- msg
 			var scan string
@@ -247,10 +273,7 @@ func TestVerifC10ShutdownBusy(t *testing.T) {
 		}
 		// more registrations than workers: they wait in the pipeline's buffer (if it has room)
 		for i := 0; i < l.queued; i++ {
-			msg, err := newCase().wrapper()
-			if err != nil {
-				t.Fatalf("infrastructure: marshal: %v", err)
-			}
+			msg := goodMsg(l)
 			seen := atomic.LoadInt64(&l.rm.totalIngestMessages)
 			regChan <- msg
 			if !waitFor(func() bool { return atomic.LoadInt64(&l.rm.totalIngestMessages) > seen }) {
